@@ -250,6 +250,8 @@ def step (w : World) (ws : List String) : World × List String :=
      | some home => ({ w with passwd := (optOfHex u, home) :: w.passwd }, [])
      | none => (w, []))
   | ["FAILAT", k] => ({ w with failAt := if k == "-" then none else some k.toNat! }, [])
+  | ["ERRNO", _] => (w, [])       -- the model has no errno: the outcome does not depend on it
+  | ["CWD", _] => (w, [])
   | ["MAXINC", n] => ({ w with maxInc := n.toNat! }, [])
   | ["X", c, fl] =>
     let cfg := cfgInit w.decls (Flags.ofNat fl.toNat!)
